@@ -23,6 +23,7 @@ RULE = ('exhaustive: all columns of n<=4 subsets over {missing,0..2^w-2} for w<=
         'numeric (001001 narrowed by 201) and code/flag, 64 columns per message; R-written variants with '
         'difference widths minimal..minimal+3 and 63; random: wide columns, character columns, full templates '
         'both ways; non-trivial = the column is not all-equal; distinct by (kind,w,n,column)/message hash')
+RULE += '; added with rounds 10-12: object histories with one long-lived encoder given the same object again; twins'
 ASSUMPTIONS = ['all-ones == missing across an encode (2.6); strings compared space-padded (2.7)',
                'compressed character columns with non-zero base and non-zero width are not generated']
 BUDGET = {'quick': 50, 'thorough': 600}
